@@ -174,6 +174,18 @@ inline void register_varopt_union() {
       if (ns[a] || a == 0) o.un.update(s1); if (b) o.un.update(s2);
       cb("maxk" + str(mk) + "/n" + str(ns[a]) + "+" + str(ns[b]), o);
     }
+    // pseudo-exact gadgets (max_k never reached) whose H region spans several mark bytes with marked (from a sampling-mode input)
+    // and unmarked (from exact inputs) items in both orders
+    const int big[3][2] = {{30, 12}, {25, 9}, {41, 20}};
+    for (int bi = 0; bi < 3; ++bi) for (int ord = 0; ord < 2; ++ord) {
+      Sched sc(0, 4242 + bi);
+      VuObj o(Un(64, mc::TrackAlloc<int64_t>(1)));
+      Sk s1(10, resize_factor::X8, mc::TrackAlloc<int64_t>(1)), s2(32, resize_factor::X8, mc::TrackAlloc<int64_t>(1));
+      for (int i = 0; i < big[bi][0]; ++i) s1.update((int64_t)i, 1.0 + (i % 3));
+      for (int i = 0; i < big[bi][1]; ++i) s2.update((int64_t)(100 + i), 2.0 + i);
+      if (ord) { o.un.update(s2); o.un.update(s1); } else { o.un.update(s1); o.un.update(s2); }
+      cb("maxk64/sampling" + str(big[bi][0]) + (ord ? "-after-" : "-before-") + "exact" + str(big[bi][1]), o);
+    }
   };
   f.from_bytes = [](const void* p, size_t n) { return ObjP(new VuObj(Un::deserialize(p, n, serde<int64_t>(), mc::TrackAlloc<int64_t>(1)))); };
   f.from_stream = [](std::istream& is) { return ObjP(new VuObj(Un::deserialize(is, serde<int64_t>(), mc::TrackAlloc<int64_t>(1)))); };
